@@ -55,7 +55,7 @@ theorem evalStep_defined (senv : Spec.Env) (srec : Spec.Rec) (scope0 : List Node
     (hn : senv.st.get? s = some n) (hnd7 : (senv.draft == .d7 && n.ref != "") = false)
     {r1 r2 r3 r4 r5 r6 r7 r8 r9 r10 r11 r12 : Spec.R}
     (h1 : Spec.kwRef senv (srec (scope0 ++ [s])) s n j = some r1)
-    (h2 : Spec.kwDynamicRef senv (srec (scope0 ++ [s])) (scope0 ++ [s]) s n j = some r2)
+    (h2 : Spec.kwDynamicRef senv (srec (scope0 ++ [s])) (scope0 ++ [s]) s (Spec.vocab senv.draft n) j = some r2)
     (h3 : Spec.kwAllOf (srec (scope0 ++ [s])) n j = some r3)
     (h4 : Spec.kwAnyOf (srec (scope0 ++ [s])) n j = some r4)
     (h5 : Spec.kwOneOf (srec (scope0 ++ [s])) n j = some r5)
@@ -177,7 +177,7 @@ include H hj
 theorem inPlaceChain_blk (env : VEnv) {s : NodeId} {i : Info} (hinfo : env.info? s = some i) (n : Node)
     (hlookup : ∀ name, dynLookup env name stack = .ok (Spec.dynTarget (specEnvOf env) stack name))
     {r2 r3 r4 r5 r6 r7 : Spec.R}
-    (h2 : Spec.kwDynamicRef (specEnvOf env) sub stack s n j = some r2)
+    (h2 : Spec.kwDynamicRef (specEnvOf env) sub stack s (Spec.vocab env.draft n) j = some r2)
     (h3 : Spec.kwAllOf sub n j = some r3) (h4 : Spec.kwAnyOf sub n j = some r4)
     (h5 : Spec.kwOneOf sub n j = some r5) (h6 : Spec.kwNot sub n j = some r6)
     (h7 : Spec.kwIf sub n j = some r7) (a0 : Anns) :
@@ -196,7 +196,7 @@ theorem prefix_spec (env : VEnv) {s : NodeId} {i : Info} (hinfo : env.info? s = 
     (hnd7 : (env.draft == .d7 && n.ref != "") = false)
     {r1 r2 r3 r4 r5 r6 r7 : Spec.R}
     (h1 : Spec.kwRef (specEnvOf env) sub s n j = some r1)
-    (h2 : Spec.kwDynamicRef (specEnvOf env) sub stack s n j = some r2)
+    (h2 : Spec.kwDynamicRef (specEnvOf env) sub stack s (Spec.vocab env.draft n) j = some r2)
     (h3 : Spec.kwAllOf sub n j = some r3) (h4 : Spec.kwAnyOf sub n j = some r4)
     (h5 : Spec.kwOneOf sub n j = some r5) (h6 : Spec.kwNot sub n j = some r6)
     (h7 : Spec.kwIf sub n j = some r7) :
@@ -440,7 +440,7 @@ end
 theorem evalStep_undefined (senv : Spec.Env) (srec : Spec.Rec) (scope0 : List NodeId) (s : NodeId) (j : Json) (n : Node)
     (hn : senv.st.get? s = some n) (hnd7 : (senv.draft == .d7 && n.ref != "") = false)
     (h : Spec.sequence [Spec.kwRef senv (srec (scope0 ++ [s])) s n j,
-      Spec.kwDynamicRef senv (srec (scope0 ++ [s])) (scope0 ++ [s]) s n j,
+      Spec.kwDynamicRef senv (srec (scope0 ++ [s])) (scope0 ++ [s]) s (Spec.vocab senv.draft n) j,
       Spec.kwAllOf (srec (scope0 ++ [s])) n j, Spec.kwAnyOf (srec (scope0 ++ [s])) n j,
       Spec.kwOneOf (srec (scope0 ++ [s])) n j, Spec.kwNot (srec (scope0 ++ [s])) n j,
       Spec.kwIf (srec (scope0 ++ [s])) n j, Spec.kwItems senv (srec (scope0 ++ [s])) n j,
@@ -501,7 +501,7 @@ theorem step_refines (env : VEnv) (hwf : EnvWF env) (hst : StoreWF env.st) (srec
           exact ⟨{}, rfl, AnnsMatch_empty j⟩
     · have hnd7 : (env.draft == .d7 && n.ref != "") = false := by simpa using hd7
       cases hseq : Spec.sequence [Spec.kwRef (specEnvOf env) (srec (stack0 ++ [s])) s n j,
-        Spec.kwDynamicRef (specEnvOf env) (srec (stack0 ++ [s])) (stack0 ++ [s]) s n j,
+        Spec.kwDynamicRef (specEnvOf env) (srec (stack0 ++ [s])) (stack0 ++ [s]) s (Spec.vocab env.draft n) j,
         Spec.kwAllOf (srec (stack0 ++ [s])) n j, Spec.kwAnyOf (srec (stack0 ++ [s])) n j,
         Spec.kwOneOf (srec (stack0 ++ [s])) n j, Spec.kwNot (srec (stack0 ++ [s])) n j,
         Spec.kwIf (srec (stack0 ++ [s])) n j, Spec.kwItems (specEnvOf env) (srec (stack0 ++ [s])) n j,
